@@ -261,3 +261,56 @@ Check C01_recovers :
     proj (option K) O (okeqb keqb) (Some k) (snd (run P (option K) S O ident (okeqb keqb) lstep s (h ++ probe)))
     = proj (option K) O (okeqb keqb) (Some k) (snd (run P (option K) S O ident (okeqb keqb) lstep s probe)).
 Print Assumptions C01_recovers.
+
+(* ====================================================================================================
+   Recovery for the CONCRETE packet-level analyzers (Model/TlsAnalyzer.v, Model/TcpAnalyzer.v), which are proved
+   to be keyed machines (Props/C07.v C07_tls_is_keyed / C07_tcp_is_keyed): after ANY history h of arbitrary
+   frames -- junk, truncated frames, other connections; the only conditions: no frame of h carries the probe's
+   key, and the table never evicts (TTL expiry is outside the models) -- the probe connection is analysed
+   exactly as by a fresh analyzer: the results attributed to it in the long run are, in order, the results of
+   the probe alone on an empty table.  Key: TLS = directed 4-tuple, TCP = (connection, role).
+   Proofs: Proofs/DischargeInstances.v (from the isolation theorems behind C07_*_no_disable). *)
+From Coq Require Import ZArith.
+From HN Require Import Model.TlsAnalyzer Proofs.KeyedExamples Proofs.DischargeInstances Proofs.DischargeExamples.
+From HN Require Model.TcpAnalyzer Model.Uptime.
+
+Theorem C01_recovers_tls : forall (cap : N) (h probe : list bytes) (k : N),
+  (forall f, In f h -> tls_key f <> k) -> (forall f, In f probe -> tls_key f = k) ->
+  tls_within_capacityb cap [] (h ++ probe) = true -> tls_within_capacityb cap [] probe = true ->
+  proj N tls_out N.eqb k (tls_results cap [] (h ++ probe)) = snd (tls_run cap [] probe).
+Proof. exact recovers_tls. Qed.
+Check C01_recovers_tls : forall (cap : N) (h probe : list bytes) (k : N),
+  (forall f, In f h -> tls_key f <> k) -> (forall f, In f probe -> tls_key f = k) ->
+  tls_within_capacityb cap [] (h ++ probe) = true -> tls_within_capacityb cap [] probe = true ->
+  proj N tls_out N.eqb k (tls_results cap [] (h ++ probe)) = snd (tls_run cap [] probe).
+Print Assumptions C01_recovers_tls.
+
+Theorem C01_recovers_tcp :
+  forall (db : list (bytes * list N)) (cap : N) (h probe : list TcpAnalyzer.tcp_event) (k : Uptime.connection_key),
+  (forall e, In e h -> TcpAnalyzer.tcp_key db e <> k) -> (forall e, In e probe -> TcpAnalyzer.tcp_key db e = k) ->
+  TcpAnalyzer.tcp_within_capacityb db cap [] (h ++ probe) = true -> TcpAnalyzer.tcp_within_capacityb db cap [] probe = true ->
+  proj Uptime.connection_key TcpAnalyzer.tcp_result Uptime.key_eqb k (TcpAnalyzer.tcp_results db cap [] (h ++ probe))
+  = snd (TcpAnalyzer.tcp_run db cap [] probe).
+Proof. exact recovers_tcp. Qed.
+Check C01_recovers_tcp :
+  forall (db : list (bytes * list N)) (cap : N) (h probe : list TcpAnalyzer.tcp_event) (k : Uptime.connection_key),
+  (forall e, In e h -> TcpAnalyzer.tcp_key db e <> k) -> (forall e, In e probe -> TcpAnalyzer.tcp_key db e = k) ->
+  TcpAnalyzer.tcp_within_capacityb db cap [] (h ++ probe) = true -> TcpAnalyzer.tcp_within_capacityb db cap [] probe = true ->
+  proj Uptime.connection_key TcpAnalyzer.tcp_result Uptime.key_eqb k (TcpAnalyzer.tcp_results db cap [] (h ++ probe))
+  = snd (TcpAnalyzer.tcp_run db cap [] probe).
+Print Assumptions C01_recovers_tcp.
+
+(* satisfiable: histories of junk (14 zero bytes, 60 x ff), a truncated frame, complete and repeated foreign
+   connections; the probe is reported (TLS: on its second segment; TCP: 1000 Hz on its ACK) *)
+Example C01_recovers_tls_example :
+  (forall f, In f c01_history -> tls_key f <> tls_kA) /\ (forall f, In f [tlsA1; tlsA2] -> tls_key f = tls_kA) /\
+  tls_within_capacityb 8 [] (c01_history ++ [tlsA1; tlsA2]) = true /\ tls_within_capacityb 8 [] [tlsA1; tlsA2] = true /\
+  map is_report (snd (tls_run 8 [] [tlsA1; tlsA2])) = [false; true].
+Proof. exact c01_tls_example. Qed.
+Example C01_recovers_tcp_example :
+  (forall e, In e c01_tcp_history -> TcpAnalyzer.tcp_key [] e <> tcp_kA) /\
+  (forall e, In e [tcpA1; tcpA2] -> TcpAnalyzer.tcp_key [] e = tcp_kA) /\
+  TcpAnalyzer.tcp_within_capacityb [] 8 [] (c01_tcp_history ++ [tcpA1; tcpA2]) = true /\
+  TcpAnalyzer.tcp_within_capacityb [] 8 [] [tcpA1; tcpA2] = true /\
+  map up_freq (snd (TcpAnalyzer.tcp_run [] 8 [] [tcpA1; tcpA2])) = [None; Some 1000%Z].
+Proof. exact c01_tcp_example. Qed.
